@@ -1,4 +1,5 @@
 import Parmcb.Props.C01
+import Parmcb.Lemmas.Cert
 /-!
 # C02 — exact algorithms return a minimum-weight cycle basis and its weight
 
@@ -50,5 +51,20 @@ theorem c02_mcb_weight_unique (g : Graph) (L L' : List (List Nat)) (h : IsMCB g 
 weights coincides with that of every minimum cycle basis") needs, beyond the injection of
 `Abstract.exchange_injection`, that two bases have the same number of elements (Steinitz).  Not proved
 here; the total (above) is, and the sorted lists are compared per run by the correspondence check. -/
+
+/-- **what the trace validation establishes**: when the compiled driver accepts a run of the implementation
+(every phase: element of the cycle space, odd against the model's support vector, and a potential
+certificate that no odd element is lighter), that run IS a run of the relational model — so all theorems
+above apply to the cycles the C++ emitted.  (`checkRunBrute_sound` is the same with the definitional
+enumeration for small graphs.) -/
+theorem c02_validated_run_is_mcb (g : Graph) (N : Nat) (v : Variant) (cycles : List (List Nat))
+    (πss : List (List Potential)) (hd : ExactDomain g N) (hlen : cycles.length = N)
+    (hcheck : checkRunPot g v 0 (unitSupports N) cycles πss = true) : IsMCB g cycles := by
+  have hsorted : ∀ S ∈ unitSupports N, StrictSorted S := by
+    intro S hS
+    simp only [unitSupports, List.mem_map] at hS
+    obtain ⟨k, _, rfl⟩ := hS
+    trivial
+  exact c02_min g N v cycles hd ⟨hlen, checkRunPot_sound g hd.simple hd.positive v 0 _ cycles hsorted πss hcheck⟩
 
 end Parmcb.C02
